@@ -111,16 +111,25 @@ NewLog(ls, id, type, now, ik, tx, tgt, key, meta) ==
   [id |-> id, type |-> type, date |-> now, ik |-> ik, tx |-> tx, tgt |-> tgt, key |-> key, meta |-> meta]
 
 \* ids are chosen by the environment (sequences have gaps): the caller supplies them
+\* A Numscript request may set transaction metadata (set_tx_meta) and account metadata (set_account_meta)
+\* itself: op.smeta / op.sameta (absent = none).  The request's metadata is added to the script's; a key set
+\* by both is refused (METADATA_OVERRIDE).  Account metadata of the request wins over the script's, key by key.
+ScriptMeta(op) == IF "smeta" \in DOMAIN op THEN op.smeta ELSE NoMeta
+ScriptAMeta(op) == IF "sameta" \in DOMAIN op THEN op.sameta ELSE NoMeta
+MergeAM(s, r) == [a \in (DOMAIN s) \cup (DOMAIN r) |->
+                    Merge(IF a \in DOMAIN s THEN s[a] ELSE NoMeta, IF a \in DOMAIN r THEN r[a] ELSE NoMeta)]
+
 CreateTx(ls, op, txid, logid) ==
   LET ps == StripAll(op.ps)
       ts == IF op.ts = 0 THEN op.now ELSE op.ts
-      t0 == [id |-> txid, ps |-> ps, ts |-> ts, ins |-> op.now, ref |-> op.ref, meta |-> op.meta,
+      t0 == [id |-> txid, ps |-> ps, ts |-> ts, ins |-> op.now, ref |-> op.ref, meta |-> Merge(ScriptMeta(op), op.meta),
              rev |-> FALSE, revAt |-> 0, reverts |-> 0, pcv |-> PCV(AllPs(ls.txs) \o ps, ps)]
   IN IF Len(ps) = 0 THEN Fail(ls, "no_postings")
      ELSE IF ~FundsOK(AllPs(ls.txs), op.ps, 1) THEN Fail(ls, "insufficient")
+     ELSE IF \E k \in (DOMAIN ScriptMeta(op)) \cap (DOMAIN op.meta) : ScriptMeta(op)[k] # "" THEN Fail(ls, "meta_override")
      ELSE IF op.ref # "" /\ \E i \in DOMAIN ls.txs : ls.txs[i].ref = op.ref THEN Fail(ls, "ref_conflict")
      ELSE Okay([txs |-> Append(ls.txs, t0),
-                accts |-> UpsertAccts(ls.accts, t0, op.ameta, op.now),
+                accts |-> UpsertAccts(ls.accts, t0, MergeAM(ScriptAMeta(op), op.ameta), op.now),
                 logs |-> Append(ls.logs, NewLog(ls, logid, "NEW_TRANSACTION", op.now, op.ik, txid, "", "", NoMeta))], txid)
 
 Revert(ls, op, txid, logid) ==
